@@ -126,6 +126,32 @@ def eval_wild_edc(args):
     return None if ok else dict(args=list(args), got=got, expected='model error' if exp_error else 'accepted')
 
 
+def eval_subst_edc(args):
+    """a model that refers to the head H of a substitution group contains the member M implicitly: a local element named M must have the type of the global M (not the head's,
+    not an unrelated one) - Element Declarations Consistent, both versions, every arrangement of the two particles"""
+    ver, shape, t, member_t = args
+    import xmlschema
+    loc = f'<xs:element name="M" type="{t}"/>'; ref = '<xs:element ref="H"/>'
+    body = {'seq': f'<xs:sequence>{ref}{loc}</xs:sequence>', 'rev': f'<xs:sequence>{loc}{ref}</xs:sequence>', 'nest': f'<xs:sequence>{ref}<xs:sequence>{loc}</xs:sequence></xs:sequence>',
+            'cho-seq': f'<xs:sequence><xs:choice>{ref}<xs:element name="z"/></xs:choice>{loc}</xs:sequence>', 'opt': f'<xs:sequence>{ref}<xs:element name="M" type="{t}" minOccurs="0"/></xs:sequence>',
+            'two-level': f'<xs:sequence><xs:element ref="H2"/>{loc}</xs:sequence>'}[shape]
+    xsd = (f'<xs:schema {cm.XS}><xs:element name="H" type="xs:decimal"/><xs:element name="M" type="{member_t}" substitutionGroup="H"/>'
+           f'<xs:element name="H2" type="xs:decimal"/><xs:element name="mid" type="xs:decimal" substitutionGroup="H2"/><xs:element name="M2" type="xs:integer" substitutionGroup="mid"/>'
+           f'<xs:element name="r"><xs:complexType>{body.replace(chr(34) + "M" + chr(34), chr(34) + "M2" + chr(34)) if shape == "two-level" else body}</xs:complexType></xs:element></xs:schema>')
+    try: _cls(ver)(xsd); got = 'accepted'
+    except xmlschema.XMLSchemaModelError: got = 'model-error'
+    except xmlschema.XMLSchemaException as e: got = 'other: ' + type(e).__name__ + ' ' + str(e)[:80]
+    want = 'accepted' if t == ('xs:integer' if shape == 'two-level' else member_t) else 'model-error'
+    return None if got == want else dict(args=list(args), got=got, expected=want)
+
+
+def check_subst_edc():
+    jobs = [(ver, sh, t, mt) for ver in ('1.0', '1.1') for sh in ('seq', 'rev', 'nest', 'cho-seq', 'opt', 'two-level') for t in ('xs:integer', 'xs:decimal', 'xs:string', 'xs:short') for mt in ('xs:integer', 'xs:decimal')]
+    res = [eval_subst_edc(j) for j in jobs]
+    return result('C15.edc_through_substitution_members', f'{len(jobs)} models: a reference to a substitution-group head next to a local element named like a member (one and two levels), 6 arrangements x 4 local types x 2 member types x 2 classes',
+                  len(jobs), [dict(case=dict(subst_edc=r['args']), observed=r['got'], required=r['expected']) for r in res if r], exhaustive=True)
+
+
 def check_wild_edc():
     jobs = [((e, w, k), pc, gt, order, alts) for e in ('a1', 'a?') for w in ('any?', 'any*', 'any1') for k in ('seq', 'cho') for pc in ('lax', 'strict', 'skip') for gt in ('xs:int', 'xs:string')
             for order in ('element-first', 'wildcard-first') for alts in ('',)]
@@ -226,12 +252,14 @@ def run(tier, seed, open_findings):
     known = load_instances('C15_instances.json')
     return [check(list(cm.two_level_models()), tier, seed, known, 'C15.two_level_models', 4, open_findings),
             check(list(cm.two_level_models_rev()), tier, seed, known, 'C15.two_level_models_rev', 4, open_findings),
-            check(list(cm.variant_models()), tier, seed, known, 'C15.variant_models', 1, open_findings), check_edc(tier, seed), check_subst(tier, seed), check_placement(tier, seed), check_wild_edc()]
+            check(list(cm.variant_models()), tier, seed, known, 'C15.variant_models', 1, open_findings), check_edc(tier, seed), check_subst(tier, seed), check_placement(tier, seed), check_wild_edc(), check_subst_edc()]
 
 
 def replay(check_name, case):
     if case.get('wild_edc'):
         a = case['wild_edc']; r = eval_wild_edc((tuple(a[0]), a[1], a[2], a[3], a[4])); return dict(ok=r is None, observed=r and r['got'], required=r and r['expected'])
+    if case.get('subst_edc'):
+        r = eval_subst_edc(tuple(case['subst_edc'])); return dict(ok=r is None, observed=r and r['got'], required=r and r['expected'])
     if case.get('placement'):
         r = eval_placement((_tuplify(case['model']), case['version'])); return dict(ok=r is None, observed=r and r['outcomes'], required='same verdict in every place')
     if case.get('subst'):
